@@ -30,6 +30,8 @@ theorem unmodellable_of_desugar :
   | .ifs c t f => by
     intro h
     simp only [desugar] at h
+    split at h
+    · cases h
     simp only [unmodellable]
     cases ht : desugarO t with
     | none => rw [ht] at h; cases h
@@ -41,7 +43,10 @@ theorem unmodellable_of_desugar :
         rfl
   | .while_ _ b | .doWhile _ b => by
     intro h
-    simp only [desugar, isSome_map] at h
+    simp only [desugar] at h
+    split at h
+    · cases h
+    simp only [isSome_map] at h
     simp only [unmodellable]
     exact unmodellable_of_desugar b h
   | .for_ i c x b => by
@@ -162,10 +167,6 @@ theorem hasSideEffect_rmCast (e : Node) : hasSideEffect e.rmCast = hasSideEffect
     simp only [Node.rmCast, hasSideEffect]
     exact hasSideEffect_rmCast e'
   | _ => rfl
-
-theorem incDec_test (op : String) :
-    (op == "++" || op == "--" || op == "p++" || op == "p--") = Gen.incDec.contains op := by
-  simp only [Gen.incDec, List.contains_cons, List.contains_nil, Bool.or_false, Bool.or_assoc]
 
 theorem operandShape_of_cond {op : String} {m : Node}
     (h : (m.isId || m.isConst || nestedOk op m) = true) : operandShape m = true := by
@@ -351,11 +352,15 @@ theorem covN_desugar : (n : Node) → ∀ c, covN n = .ok c → c.up = 0 → c.i
     simp only [desugar, isSome_map]
     exact covList_desugar l a.1 a.2 ha hi hg.2
   | .while_ _ b | .doWhile _ b => by
-    intro c h _ hi hg
-    simp only [covN, bind_eq_ok, pure_eq_ok, Except.ok.injEq] at h
+    intro c h hu hi hg
+    simp only [covN] at h
+    split at h
+    · simp only [pure_eq_ok, Except.ok.injEq] at h; subst h; cases hu
+    rename_i hc
+    simp only [bind_eq_ok, pure_eq_ok, Except.ok.injEq] at h
     obtain ⟨a, ha, rfl⟩ := h
     simp only [stmtAll, Bool.and_eq_true] at hg
-    simp only [desugar, isSome_map]
+    simp only [desugar, ← hasEffect_eq_changesVariable, hc, Bool.false_eq_true, if_false, isSome_map]
     exact covBody_desugar b a.1 a.2 ha hi hg.2
   | .for_ init cond next b => by
     intro c h hu hi hg
@@ -373,14 +378,18 @@ theorem covN_desugar : (n : Node) → ∀ c, covN n = .ok c → c.up = 0 → c.i
       · rw [hX] at hl; cases hl
     · cases h; cases hu
   | .ifs _ t f => by
-    intro c h _ hi hg
-    simp only [covN, bind_eq_ok, pure_eq_ok, Except.ok.injEq] at h
+    intro c h hu hi hg
+    simp only [covN] at h
+    split at h
+    · simp only [pure_eq_ok, Except.ok.injEq] at h; subst h; cases hu
+    rename_i hc
+    simp only [bind_eq_ok, pure_eq_ok, Except.ok.injEq] at h
     obtain ⟨a, ha, b, hb, rfl⟩ := h
     have hi : a.1 + b.1 = 0 := hi
     simp only [stmtAll, Bool.and_eq_true] at hg
     have h1 := covSlot_desugar t a.1 a.2 ha (by omega) hg.1.2
     have h2 := covSlot_desugar f b.1 b.2 hb (by omega) hg.2
-    simp only [desugar]
+    simp only [desugar, ← hasEffect_eq_changesVariable, hc, Bool.false_eq_true, if_false]
     cases ht : desugarO t with
     | none => rw [ht] at h1; cases h1
     | some x =>
